@@ -347,6 +347,24 @@ def chain(ctx: Ctx, rep: Report) -> None:
         'employees are shut down before client connections are closed',
         'client connections are closed before the base shutdown', key='order',
     )
+    # the listener thread loops `while self.running`; the base shutdown is
+    # what clears that flag, so waking and joining the listener before it
+    # leaves the listener blocked in accept() again and the join never
+    # returns: the shutdown, and with it every waiting client, hangs
+    joins = [n for n in g.nodes if q.has_call('self.listen_thread.join',
+                                              [])(n)]
+    rep.count()
+    rep.check(
+        bool(sup) and bool(joins) and not g.precedes(
+            lambda n: n in sup, lambda n: n in joins), M,
+        'DetachedServer.handle_shutdown:listener', f.path, f.lineno,
+        'the running flag is cleared (base shutdown) before the listener '
+        'thread is joined',
+        'the listener thread is joined on a path that has not yet run the '
+        'base shutdown: its loop condition `self.running` is still true, '
+        'it re-enters accept() and the join blocks for ever',
+        key='listener-order',
+    )
     # manager: forward upstream
     f, g = fn(R.MGR, 'handle_shutdown')
     rep.count()
